@@ -75,9 +75,18 @@ func diffViews(a, b c16View) string {
 func c16One(id int, seed int64, kind string) c16Case {
 	rng := rand.New(rand.NewSource(seed))
 	cfg := genCfg(rng, "general")
+	lu := "u1"
 	switch kind {
 	case "locked":
 		cfg.Mods = ensure(cfg.Mods, "auth", "lock")
+		if (id/4)%2 == 1 {
+			// every other pair: the account with a second factor enrolled - a correct password must not get as far as
+			// the second-factor page either
+			lu = "u2"
+			if !cfg.Sms {
+				cfg.Totp = true
+			}
+		}
 	case "recover":
 		cfg.Mods = ensure(cfg.Mods, "recover")
 	case "unknown":
@@ -126,12 +135,6 @@ func c16One(id int, seed int64, kind string) c16Case {
 	switch kind {
 	case "locked":
 		// make u1 locked (confirmed by its seed); attempt counter state comes from the prefix
-		// (every other pair: the account with a second factor enrolled - a correct password must not get as far
-		// as the second-factor page either)
-		lu := "u1"
-		if id%2 == 0 {
-			lu = "u2"
-		}
 		extra = append(extra, SymStep{Kind: "lock", U: lu})
 		sa, sb = login("Login", lu, Desc{K: "pw", U: lu}), login("Login", lu, lit("Wrong-pass1!"))
 		c.Pre = "locked"
@@ -227,8 +230,8 @@ func c16One(id int, seed int64, kind string) c16Case {
 		}
 	}
 	if kind == "locked" {
-		if u, ok := r1.w.st.users[r1.account("u1").PID]; !ok || !u.Confirmed {
-			c.Skip = "u1 not confirmed"
+		if u, ok := r1.w.st.users[r1.account(lu).PID]; !ok || !u.Confirmed {
+			c.Skip = lu + " not confirmed"
 			return c
 		}
 	}
